@@ -447,7 +447,7 @@ func (x *Exec) invoke(st *State, fr *Frame, site ssa.Instruction, cc *ssa.CallCo
 		}
 	}
 	c := x.cs.Funcs[key]
-	if c == nil && cc.Method.Pkg() != nil && strings.HasPrefix(cc.Method.Pkg().Path(), "github.com/go-netty/") {
+	if c == nil {
 		// an interface of the repository itself without a contract (typically one introduced by a
 		// change): the call is an event that may do anything - obligations that depend on what
 		// happens around it fail by name instead of the whole function being undecided
